@@ -94,7 +94,7 @@ func sweep(c *core.Case, family string, v reflect.Value, byPointer bool) {
 			if e := proto.Unmarshal(b[:n], out.Interface()); e != nil {
 				c.Violation(class, "output-undecodable", fmt.Sprintf("MarshalTo(len %d) wrote %x which does not decode: %v | %s", L, b[:n], e, show(v)), w)
 				return
-			} else if ok, d := ptypes.Equal(v, out.Elem()); !ok {
+			} else if ok, d := ptypes.EqualSign(v, out.Elem()); !ok {
 				c.Violation(class, "output-decodes-differently", fmt.Sprintf("MarshalTo(len %d) wrote %x: %s | %s", L, b[:n], d, show(v)), w)
 				return
 			}
